@@ -32,7 +32,7 @@ KMAX = 1e8
 
 def floors(tier):
     return {"gcp_judged": 3000, "outward_on_bound": 800, "breakpoints_crossed_inputs": 800, "c_checked": 1500,
-            "intercepted_calls": 200, "tie_inputs": 600, "inputs_with_theta_exactly_one": 40, "inputs_with_empty_memory_and_theta_not_one": 100, "grazing_inputs": 10000, "grazing_inputs_after_crossed_breakpoints": 5000, "runs_with_objective_redefined": 40, "runs_with_objective_redefined_between_checkpoint_and_restart": 15, "__nontrivial__": 200}
+            "intercepted_calls": 200, "tie_inputs": 600, "inputs_with_theta_exactly_one": 40, "inputs_with_empty_memory_and_theta_not_one": 100, "grazing_inputs": 10000, "inputs_with_direction_exactly_orthogonal_to_the_memory": 300, "inputs_with_models_used_in_turn": 800, "grazing_inputs_after_crossed_breakpoints": 5000, "runs_with_objective_redefined": 40, "runs_with_objective_redefined_between_checkpoint_and_restart": 15, "__nontrivial__": 200}
 
 
 def exhaustive(tier):
@@ -285,6 +285,10 @@ def cases(tier, seed):
     nt = 150 if tier == "quick" else 5000
     for i in range(nt):
         yield {"kind": "ties", "seed": subseed("C08t", seed, i) % (2**31), "count": 20}
+    for i in range(60 if tier == "quick" else 2000):
+        yield {"kind": "orth", "seed": subseed("C08o", seed, i) % (2**31), "count": 20}
+    for i in range(60 if tier == "quick" else 2000):
+        yield {"kind": "alt", "seed": subseed("C08a", seed, i) % (2**31), "count": 10}
     for i in range(400 if tier == "quick" else 12000):
         yield {"kind": "graze", "seed": subseed("C08g", seed, i) % (2**31), "count": 20}
     nruns = 150 if tier == "quick" else 4000
@@ -424,6 +428,82 @@ def run(spec):
                 out.count("random_inputs")
                 one_input(out, x, g, lb, ub, mats, B, f"random n={n} pairs={npairs}", dict(source="random"), keys)
                 last = dict(n=n, pairs=npairs, x=x, g=g, lb=lb, ub=ub)
+                if out.violations:
+                    break
+            out.sample = dict(spec=spec, last_input=last)
+        elif spec["kind"] == "orth":
+            # dyadic data: the initial direction is EXACTLY orthogonal to every stored s and y (W^T d == 0 bit for bit) although the moving
+            # variables have non-zero rows in W; a breakpoint is crossed before the minimiser, after which the memory does matter
+            from collections import deque
+
+            from lbfgsb.bfgsmats import LBFGSB_MATRICES, update_lbfgs_matrices
+
+            rng = np.random.default_rng(spec["seed"])
+            last = None
+            for j in range(spec["count"]):
+                n = int(rng.integers(3, 8))
+                idx = rng.permutation(n)
+                npairs = 1 if n < 5 or rng.random() < 0.5 else 2
+                x = rng.integers(-8, 9, n) / 4.0
+                X, G = deque([x.copy()]), deque([rng.integers(-8, 9, n) / 4.0])
+                mats = LBFGSB_MATRICES(n)
+                g = rng.integers(1, 9, n) / 4.0 * rng.choice([-1.0, 1.0], n)
+                for q in range(npairs):
+                    a, b = int(idx[2 * q]), int(idx[2 * q + 1])
+                    sv = np.zeros(n)
+                    sv[a], sv[b] = 0.5, -0.5
+                    c = float(2.0 ** rng.integers(0, 3))
+                    xn, gn = X[-1] + sv, G[-1] + c * sv
+                    mats = update_lbfgs_matrices(xn.copy(), gn.copy(), X, G, npairs, mats, False)
+                    g[b] = g[a]  # equal components: s.g == 0 and y.g == 0 exactly
+                x = X[-1].copy()
+                S = [X[i + 1] - X[i] for i in range(len(X) - 1)]
+                Y = [G[i + 1] - G[i] for i in range(len(G) - 1)]
+                if not S or not has_pairs(mats):
+                    continue
+                theta = float(Y[-1] @ Y[-1]) / float(S[-1] @ Y[-1])
+                B = dense_bfgs(S, Y, theta, n)
+                if np.any(mats.W.T @ g != 0):
+                    out.count("skipped_not_exactly_orthogonal")
+                    continue
+                lb, ub = np.full(n, -np.inf), np.full(n, np.inf)
+                a0 = int(idx[0])
+                tb = float(2.0 ** -rng.integers(2, 5)) / theta  # a breakpoint well before the minimiser of the first segment (1/theta)
+                if g[a0] > 0:
+                    lb[a0] = x[a0] - g[a0] * tb
+                else:
+                    ub[a0] = x[a0] - g[a0] * tb
+                out.count("inputs_with_direction_exactly_orthogonal_to_the_memory")
+                one_input(out, x, g, lb, ub, mats, B, f"orth n={n} pairs={npairs}", dict(source="orth"), keys)
+                last = dict(n=n, pairs=npairs, x=x, g=g, lb=lb, ub=ub)
+                if out.violations:
+                    break
+            out.sample = dict(spec=spec, last_input=last)
+        elif spec["kind"] == "alt":
+            # several models built first and used in turn (a caller holding two optimisation states): each Cauchy point belongs to the
+            # matrices it is computed with, whatever was computed in between
+            rng = np.random.default_rng(spec["seed"])
+            last = None
+            for j in range(spec["count"]):
+                n = int(rng.integers(2, 9))
+                npairs = int(rng.integers(1, 5))
+                m1, m2 = make_memory(rng, n, npairs, convex=True), make_memory(rng, n, npairs, convex=True)
+                if m1 is None or m2 is None:
+                    out.count("skipped_memory_inconsistent")
+                    continue
+                ins = []
+                for mats, B in (m1, m2):
+                    lb, ub = gen.rand_box(rng, n, gen.pick(rng, ["mixed", "boxed", "lower", "upper", "none"]))
+                    xx = gen.rand_x0(rng, lb, ub, gen.pick(rng, ["interior", "face"]))
+                    gg = rng.standard_normal(n) * float(np.exp(rng.uniform(-1, 2)))
+                    ins.append((xx, gg, lb, ub, mats, B))
+                for which in (0, 1, 0, 1):
+                    xx, gg, lb, ub, mats, B = ins[which]
+                    out.count("inputs_with_models_used_in_turn")
+                    one_input(out, xx, gg, lb, ub, mats, B, f"alt n={n} pairs={npairs} model {which}", dict(source="alt"), keys)
+                    if out.violations:
+                        break
+                last = dict(n=n, pairs=npairs)
                 if out.violations:
                     break
             out.sample = dict(spec=spec, last_input=last)
